@@ -5,20 +5,20 @@
 JOBS = [
     # ---- playback/tape_recorder.py: decorator wrappers and play
     dict(job=('specs.tr_units', 'w_in_playback', {}), props=['C01', 'C02', 'C09'], cases='w_in'),
-    dict(job=('specs.tr_units', 'w_in_recording', {}), props=['C01', 'C02', 'C04', 'C05', 'C09'], cases='w_in'),
+    dict(job=('specs.tr_units', 'w_in_recording', {}), props=['C01', 'C02', 'C03', 'C04', 'C05', 'C09'], cases='w_in'),
     dict(job=('specs.tr_units', 'w_out', {'mode': 'playback'}), props=['C01', 'C02', 'C03', 'C09'], cases='w_out'),
     dict(job=('specs.tr_units', 'w_out', {'mode': 'recording'}), props=['C01', 'C02', 'C03', 'C04', 'C05', 'C09'], cases='w_out'),
-    dict(job=('specs.tr_units', 'w_op_recording', {}), props=['C04', 'C05', 'C09', 'C17', 'C18'], cases='w_op'),
+    dict(job=('specs.tr_units', 'w_op_recording', {}), props=['C03', 'C04', 'C05', 'C09', 'C17', 'C18'], cases='w_op'),
     dict(job=('specs.tr_units', 'w_op_passthrough', {'mode': 'disabled'}), props=['C04']),
     dict(job=('specs.tr_units', 'w_op_playback', {}), props=['C01', 'C02', 'C03']),
     dict(job=('specs.tr_units', 'play', {}), props=['C01', 'C02', 'C03', 'C09', 'C08', 'C19']),
     # ---- small public / helper methods of the recorder (function-level contracts, every state under the class invariant)
-    dict(job=('specs.tr_small', 'discard_recording', {}), props=['C04', 'C05', 'C09', 'C17']),
+    dict(job=('specs.tr_small', 'discard_recording', {}), props=['C04', 'C05', 'C09', 'C17', 'C03']),
     dict(job=('specs.tr_small', 'force_sample_recording', {}), props=['C04', 'C09', 'C17']),
     dict(job=('specs.tr_small', 'should_sample', {}), props=['C17']),
     dict(job=('specs.tr_small', 'record_data', {}), props=['C04', 'C05', 'C09']),
     dict(job=('specs.tr_small', 'play_data', {}), props=['C02', 'C09', 'C11']),
-    dict(job=('specs.tr_small', 'reset_active_recording', {}), props=['C05', 'C09', 'C17']),
+    dict(job=('specs.tr_small', 'reset_active_recording', {}), props=['C05', 'C09', 'C17', 'C03']),
     # ---- playback/interception/files
     dict(job=('specs.files', 'get_file_path', {}), props=['C20']),
     dict(job=('specs.files', 'intercept_file', {}), props=['C20']),
@@ -36,8 +36,8 @@ JOBS = [
     dict(job=('specs.async_cas', 'async_recording_ops', {}), props=['C12']),
     dict(job=('specs.async_cas', 'cassette_ops', {}), props=['C12']),
     # ---- helper functions of the recorder proved against the contracts the wrapper units assume
-    dict(job=('specs.tr_helpers', 'extract', {}), props=['C03', 'C11', 'C18']),
-    dict(job=('specs.tr_helpers', 'post_metadata', {}), props=['C05', 'C18']),
+    dict(job=('specs.tr_helpers', 'extract', {}), props=['C03', 'C04', 'C11', 'C18']),
+    dict(job=('specs.tr_helpers', 'post_metadata', {}), props=['C04', 'C05', 'C18']),
     # ---- comparison runner
     dict(job=('specs.equalizer', 'run_comparison', {}), props=['C08', 'C13', 'C19']),
     dict(job=('specs.equalizer', 'play_and_compare', {}), props=['C08', 'C19']),
@@ -48,7 +48,7 @@ JOBS = [
     # ---- cassettes: in-memory, file-based, MemoryRecording, TapeCassette base methods
     dict(job=('specs.cassettes', 'in_memory_roundtrip', {}), props=['C07', 'C11', 'C02', 'C09', 'C05']),
     dict(job=('specs.cassettes', 'in_memory_get', {}), props=['C07', 'C11']),
-    dict(job=('specs.cassettes', 'memory_recording', {}), props=['C07', 'C11', 'C01', 'C05', 'C18']),
+    dict(job=('specs.cassettes', 'memory_recording', {}), props=['C07', 'C11', 'C01', 'C05', 'C18', 'C04']),
     dict(job=('specs.cassettes', 'in_memory_create', {}), props=['C07', 'C10', 'C04']),
     dict(job=('specs.cassettes', 'in_memory_iter', {}), props=['C10', 'C19']),
     dict(job=('specs.cassettes', 'category_units', {}), props=['C10', 'C19']),
@@ -61,7 +61,7 @@ JOBS = [
     dict(job=('specs.s3', 's3_close', {}), props=['C15']),
     dict(job=('specs.s3', 's3_create', {}), props=['C15', 'C16', 'C10', 'C07']),
     dict(job=('specs.s3', 's3_should_sample', {}), props=['C17']),
-    dict(job=('specs.s3', 's3_init', {}), props=['C15', 'C07', 'C10']),
+    dict(job=('specs.s3', 's3_init', {}), props=['C15', 'C07', 'C10', 'C17']),
     dict(job=('specs.s3', 's3_category', {}), props=['C10', 'C19', 'C17']),
     dict(job=('specs.s3', 's3_id_prefixes', {}), props=['C16', 'C10']),
     dict(job=('specs.s3', 's3_prefix_iterators', {}), props=['C10', 'C16', 'C14']),
@@ -86,7 +86,7 @@ JOBS = [
 # case splits of the precondition (each case is a separate job; together they cover the whole precondition -- the covering is itself
 # an obligation, see pyvc.cases)
 CASES = {
-    'w_in': [{'dh': a, 'res': b, 'fb': c} for a in ('none', 'some') for b in ('none', 'some') for c in ('none', 'callable', 'list')],
+    'w_in': [{'dh': a, 'res': b, 'fb': c} for a in ('none', 'some') for b in ('none', 'some') for c in ('none', 'callable', 'list')] + [{'dh': 'none', 'res': 'none', 'fb': 'two'}],
     'w_out': [{'dh': a, 'static': b} for a in ('none', 'some') for b in ('yes', 'no')],
     'w_op': [{'ext': a, 'clsfn': b} for a in ('none', 'some') for b in ('yes', 'no')],
 }
@@ -139,6 +139,16 @@ def extra_for(prop, tier, seed):
         from specs import keys
         out.append(lambda: (lambda r: dict(r, results=[x for x in r['results'] if x['prop'] == prop]))(keys.lemmas()))
     return out
+
+
+BOUNDED = {'specs.studio.grouping': 'replay/bounded/c19_grouping.py'}
+
+
+def bounded_for(jobname):
+    for k, v in BOUNDED.items():
+        if jobname.startswith(k):
+            return v
+    return None
 
 
 def jobs_for(prop):
